@@ -52,6 +52,9 @@ CHECKS = {
  "C12": ("fault_enumeration", "runtime monitor: stream/alignment/held-back/flushed-and-synced invariants evaluated on the recorded sink event log after every operation with harness-driven ticks; concurrent histories under the race detector with unique records parsed back out of the sink; crash-point enumeration by self-kill at every operation and sink-event boundary in child processes; quiescence-based deadlock verdicts",
          "Sequential histories over Size in {1,2,7,64,4096,default} with Write lengths 0/1/free/free+1/size-1/size/size+1/3*size, Sync, tick, Stop (repeated, before the first Write, Write after Stop): after every operation the sink stream must be an aligned prefix of the accepted stream with at most Size held back, and after Sync/Stop/tick equal to it and synced; the flush goroutine must be gone after Stop. Concurrent histories (2-8 goroutines mixing Write, Sync, Stop and racing ticks, injected yields at both hook points) in a -race child: exactly-once, per-goroutine order, whole-record sink writes, Sync guarantee, no deadlock, no leak. For each crash history a child is SIGKILLed at every boundary (exhaustive per history) and the file must be an aligned prefix holding everything acknowledged.",
          "A watchdog that fires while goroutines still move is inconclusive; a deadlock is declared only when, with no harness event pending, every goroutine inside the syncer is blocked with an unchanged stack in two snapshots. Crash = process kill at boundaries (no system call in flight), not power loss.", "3/C12"),
+ "C06": ("exploration", "runtime monitor: each call runs in its own goroutine and its outcome (returned / panic value / goroutine exit / custom hook ran) is observed together with sink snapshots taken when control is lost; the real default Fatal action is observed from outside child processes (exit status, sentinel file, data file, W/S event side file)",
+         "The in-process product {16 front ends: Logger, every SugaredLogger variant, Check/Write, std-log bridge, gRPC} x {DPanic, Panic, Fatal} x {9 core compositions incl. no-op, disabled, sampled-out, tee, lazy, increase-level, buffered sink} x {hook unset, nil, WriteThenNoop, WriteThenGoexit, WriteThenPanic, custom} x {development on/off} is enumerated completely (4536 cells): the terminal action must run exactly when required, with the right action, and every accepting core must hold the entry and IO sinks must show write-then-sync at that moment. The default os.Exit path is observed in real child processes (250 of 576 cells in quick, all in thorough): exit status 1, code after the call never runs, complete final line in the file, sink synced after the last write.",
+         "Custom hooks that return normally are outside the statement. Exit observation uses real processes, no stubbing of zap's exit function.", "3/C06"),
 }
 NOT_YET = {}
 props = [json.loads(l) for l in open(os.path.join(V, "properties.jsonl"))]
